@@ -20,6 +20,14 @@ tvars == <<st, kind, tid, nreg, ncb, joined, mainTid, once>>
 VARIABLES jto,       \* the time-out in force (WZero: unbounded, the default)
           jt0        \* clock value when the join-all call in progress began
 jvars == <<jto, jt0>>
+(* participants counted by hand (aws_thread_increment_unjoined_count / _decrement_, what event-loop threads of the sibling *)
+(* libraries do): join-all waits for them like for managed threads                                                        *)
+(* part[i]: "no" -> "pending" (increment call begun) -> "in" (it returned) -> "out" (decrement call begun) -> "done";      *)
+(* snap: the participants that were "in" when the join-all call in progress began - the ones it has to wait for          *)
+VARIABLES part, snap
+pvars == <<part, snap>>
+Counted == {i \in DOMAIN part : part[i] \in {"pending", "in", "out"}}
+CountStep(i, from, to) == part[i] = from /\ part' = [part EXCEPT ![i] = to] /\ snap' = snap /\ UNCHANGED tvars
 (* A bounded join-all that reports success has returned within a second of its deadline.  On the virtual clock of the  *)
 (* harness the library's own deadline is exact; the slack covers a clock jump to the end of some thread's 1 ms sleep     *)
 (* between the library's last look at the clock and the harness reading it (scenarios let only managed threads sleep    *)
@@ -85,6 +93,9 @@ JoinRet(i, rc) ==
     /\ joined' = [joined EXCEPT ![i] = TRUE]
     /\ UNCHANGED <<st, kind, tid, nreg, ncb, mainTid, once>>
 
+(* a thread cannot join itself: the call is refused and changes nothing - the launcher's join is still to come *)
+SelfJoin(i, rc) == kind[i] = "manual" /\ st[i] # "none" /\ ~joined[i] /\ rc # 0 /\ UNCHANGED tvars
+
 (* "Overrides how long, in nanoseconds, that aws_thread_join_all_managed will wait for threads to complete. A value of  *)
 (* zero will result in an unbounded wait."                                                                           *)
 SetJoinTimeout(ns) == jto' = WNorm(ns) /\ jt0' = jt0 /\ UNCHANGED tvars
@@ -93,11 +104,12 @@ JoinAllBegin(t) == jt0' = WNorm(t) /\ jto' = jto /\ UNCHANGED tvars
 (* join-all reports success only after every managed thread has finished; the outstanding count is then zero.  With a *)
 (* time-out in force it may give up instead - never before the time-out has elapsed - and a successful bounded call  *)
 (* has returned by (about) its deadline.                                                                              *)
-JoinAllRet(rc, count, t) ==
+JoinAllRet(rc, count, t, uj) ==
     /\ IF rc = 0
-       THEN /\ count = 0
+       THEN /\ count <= Cardinality(Counted)            \* the managed threads are gone; late-comers may already be counted
+            /\ \A i \in snap : part[i] \in {"out", "done"}
             /\ \A i \in Thr : kind[i] = "managed" => Finished(i)
-            /\ (~WIsZero(jto) => WLt(t, WAdd(WAdd(jt0, jto), JoinSlack)))
+            /\ ((~WIsZero(jto) /\ uj = 0) => WLt(t, WAdd(WAdd(jt0, jto), JoinSlack)))
        ELSE /\ ~WIsZero(jto)
             /\ WLe(WAdd(jt0, jto), t)
     /\ UNCHANGED tvars
